@@ -118,6 +118,17 @@ pub fn arb_params(d: u32) -> BoxedStrategy<ParamsSel> {
 		2 => (crate::props::c15::arb_u64_boundary(), arb_string(8)).prop_map(|(n, s)| ParamsSel::Typed(n, s)),
 		2 => (crate::props::c15::arb_code(), arb_string(8), proptest::option::of(arb_json(2))).prop_map(|(c, m, d)| ParamsSel::Fail(c, m, d)),
 		1 => (0u16..300, 0u8..6).prop_map(|(l, k)| ParamsSel::Big(l, k)),
+		// params a full `serde_json::Value` parse refuses although they are JSON: nested deeper than its recursion limit,
+		// a number beyond the range of a double. The message is a call all the same (its params are not looked into
+		// before dispatch) and the handler answers -32602
+		1 => (130usize..260, any::<bool>()).prop_map(|(depth, obj)| {
+			let mut j = J::Arr(vec![]);
+			for k in 0..depth {
+				j = if obj && k % 2 == 1 { J::Obj(vec![("k".to_string(), j)]) } else { J::Arr(vec![j]) };
+			}
+			ParamsSel::Any(if matches!(j, J::Obj(_)) { j } else { J::Arr(vec![j]) })
+		}),
+		1 => proptest::sample::select(vec!["1e999", "-1e999", "1e400", "123456789e9999"]).prop_map(|t| ParamsSel::Any(J::Arr(vec![J::Num(t.to_string())]))),
 	]
 	.boxed()
 }
